@@ -1,15 +1,51 @@
+pub mod c01;
+pub mod c02;
 pub mod c04;
+pub mod c05;
+pub mod c06;
+pub mod c08;
+pub mod c09;
+pub mod c10;
+pub mod c11;
+pub mod c12;
+pub mod c13;
+pub mod c14;
+pub mod c15;
+pub mod c16;
+pub mod c17;
+pub mod c19;
+pub mod c20;
 pub mod common;
+pub mod hist;
 
 /// `with_property!(id, p => expr)`: bind `p` to the property object for `id`.
 #[macro_export]
 macro_rules! with_property {
     ($id:expr, $p:ident => $body:expr) => {
         match $id {
+            "C01" => { let $p = $crate::props::c01::C01; Some($body) }
+            "C02" => { let $p = $crate::props::c02::C02; Some($body) }
             "C04" => { let $p = $crate::props::c04::C04; Some($body) }
+            "C05" => { let $p = $crate::props::c05::C05; Some($body) }
+            "C06" => { let $p = $crate::props::c06::C06; Some($body) }
+            "C08" => { let $p = $crate::props::c08::C08; Some($body) }
+            "C09" => { let $p = $crate::props::c09::C09; Some($body) }
+            "C10" => { let $p = $crate::props::c10::C10; Some($body) }
+            "C11" => { let $p = $crate::props::c11::C11; Some($body) }
+            "C12" => { let $p = $crate::props::c12::C12; Some($body) }
+            "C13" => { let $p = $crate::props::c13::C13; Some($body) }
+            "C14" => { let $p = $crate::props::c14::C14; Some($body) }
+            "C15" => { let $p = $crate::props::c15::C15; Some($body) }
+            "C16" => { let $p = $crate::props::c16::C16; Some($body) }
+            "C17" => { let $p = $crate::props::c17::C17; Some($body) }
+            "C19" => { let $p = $crate::props::c19::C19; Some($body) }
+            "C20" => { let $p = $crate::props::c20::C20; Some($body) }
+            "C03" => { let $p = $crate::props::hist::C03; Some($body) }
+            "C07" => { let $p = $crate::props::hist::C07; Some($body) }
+            "C18" => { let $p = $crate::props::hist::C18; Some($body) }
             _ => None,
         }
     };
 }
 
-pub const ALL_IDS: &[&str] = &["C04"];
+pub const ALL_IDS: &[&str] = &["C03", "C07", "C18", "C01", "C02", "C04", "C05", "C06", "C08", "C09", "C10", "C11", "C12", "C13", "C14", "C15", "C16", "C17", "C19", "C20"];
